@@ -22,7 +22,7 @@ type c14Case struct {
 
 var c14Ops = []string{"<=", ">=", "&=", "!=", "=", "<", ">", "&"}
 
-// splitFilter returns every reading (field, operator, value) of a filter argument in which the
+// splitFilter returns the reading (field, operator, value) of a filter argument in which the
 // operator starts at the first position where any operator matches and field and value are the
 // complete, non-empty text before and after it ("key<=" can only be read as key < "=").
 func splitFilter(arg string, ops []string) (cands [][3]string) {
@@ -37,9 +37,14 @@ func splitFilter(arg string, ops []string) (cands [][3]string) {
 	if best <= 0 {
 		return nil
 	}
+	// the operator is the longest one at that position that leaves a value ("a1&=3" is a1 &= 3, never
+	// a1 & "=3": that would be a different kernel comparison); a shorter reading is taken only when the
+	// longer one would leave no value
 	for _, o := range ops {
 		if strings.HasPrefix(arg[best:], o) && len(arg) > best+len(o) {
-			cands = append(cands, [3]string{arg[:best], o, arg[best+len(o):]})
+			if len(cands) == 0 || len(o) > len(cands[0][1]) {
+				cands = [][3]string{{arg[:best], o, arg[best+len(o):]}}
+			}
 		}
 	}
 	return cands
